@@ -12,6 +12,23 @@ Definition kid_rows (a : list anode) (n : anode) : list (list nat) :=
 Definition aligned (s : state) : Prop :=
   forall p gs, p < length (arena s) -> akind_of (nth p (arena s) dummy_anode) = ASum gs ->
     kid_rows (arena s) (nth p (arena s) dummy_anode) ++ map trows (pending p (queue s)) = gs.
+(* the general accounting invariant: every inner node knows (ghost) which (rows, columns) pairs its
+   children are built for — a sum: its row groups with its own columns; a product: its own rows with
+   its column groups — and the children attached so far followed by the pending tasks carry exactly
+   that list, in order *)
+Definition expected (n : anode) : option (list (list nat * list nat)) :=
+  match akind_of n with
+  | ASum gs => Some (map (fun g => (g, ascope n)) gs)
+  | AProd ps => Some (map (fun c => (arows n, c)) ps)
+  | ALeaf => None
+  end.
+Definition kid_info (a : list anode) (n : anode) : list (list nat * list nat) :=
+  map (fun k => (arows (nth k a dummy_anode), ascope (nth k a dummy_anode))) (akids n).
+Definition task_info (t : task) : list nat * list nat := (trows t, tcols t).
+Definition accounted (s : state) : Prop :=
+  forall p e, p < length (arena s) -> expected (nth p (arena s) dummy_anode) = Some e ->
+    kid_info (arena s) (nth p (arena s) dummy_anode) ++ map task_info (pending p (queue s)) = e.
+
 (* bookkeeping: parents and children are arena indices *)
 Definition wfs (s : state) : Prop :=
   Forall (fun t => tparent t < length (arena s)) (queue s) /\
@@ -195,12 +212,12 @@ Section StepInv.
     - (* REM *)
       set (rem := pickb (tcols t) (zv ans) true). set (oth := pickb (tcols t) (zv ans) false).
       set (b := length a).
-      set (P := {| akind_of := AProd; ascope := tcols t; arows := trows t; akids := [] |}).
+      set (P := {| akind_of := AProd [rem; oth]; ascope := tcols t; arows := trows t; akids := [] |}).
       unfold naive. rewrite app_length. cbn [length]. replace (length a + 1) with (S b) by (unfold b; lia).
       rewrite <- app_assoc. cbn [app].
-      set (rest := {| akind_of := AProd; ascope := rem; arows := trows t; akids := seq (S (S b)) (length rem) |} ::
+      set (rest := {| akind_of := AProd (map (fun s0 => [s0]) rem); ascope := rem; arows := trows t; akids := seq (S (S b)) (length rem) |} ::
                    map (fun s0 => {| akind_of := ALeaf; ascope := [s0]; arows := trows t; akids := [] |}) rem).
-      set (ext := {| akind_of := AProd; ascope := tcols t; arows := trows t; akids := [S b] |} :: rest).
+      set (ext := {| akind_of := AProd [rem; oth]; ascope := tcols t; arows := trows t; akids := [S b] |} :: rest).
       assert (Heq : add_child (a ++ P :: rest) b (S b) = a ++ ext) by (unfold b; apply add_child_new).
       rewrite Heq.
       set (newq := [mk_task b (trows t) oth false false (is_first t && match q with [] => true | _ => false end)]).
@@ -230,7 +247,7 @@ Section StepInv.
       + apply (attach_wfs a t q Hwf ext b [] Hx); repeat constructor.
     - (* NAIVE *)
       unfold naive. set (b := length a).
-      set (ext := {| akind_of := AProd; ascope := tcols t; arows := trows t; akids := seq (S b) (length (tcols t)) |} ::
+      set (ext := {| akind_of := AProd (map (fun s0 => [s0]) (tcols t)); ascope := tcols t; arows := trows t; akids := seq (S b) (length (tcols t)) |} ::
                   map (fun s0 => {| akind_of := ALeaf; ascope := [s0]; arows := trows t; akids := [] |}) (tcols t)).
       assert (Hx : length a <= b < length (a ++ ext)) by (rewrite app_length; cbn; unfold b; lia).
       assert (Hns : Forall (fun n => forall gs, akind_of n <> ASum gs) ext).
@@ -271,7 +288,7 @@ Section StepInv.
                     wfs {| arena := a; queue := mk_task (tparent t) (trows t) (tcols t) true false false :: q |})
         by (apply (requeue_inv a t q); auto).
       set (b := length a).
-      set (ext := [{| akind_of := AProd; ascope := tcols t; arows := trows t; akids := [] |}]).
+      set (ext := [{| akind_of := AProd gs; ascope := tcols t; arows := trows t; akids := [] |}]).
       set (newq := map (fun g => mk_task b (trows t) g false false false) gs).
       assert (Hx : length a <= b < length (a ++ ext)) by (rewrite app_length; cbn; unfold b; lia).
       assert (Hsucc : aligned {| arena := add_child (a ++ ext) (tparent t) b; queue := q ++ newq |} /\
